@@ -227,6 +227,12 @@ def handle (input impl : Json) : R Reply := do
     let qm ← asNat (fieldD impl "quorumMismatch" (.num 0))
     let ex := if qm > 0 then s!"observation-quorum: ObservationQuorum answered differently from 'at least 2f+1 observations' {qm} time(s) (n={t.n}, f={t.f}): with 2f+1 live honest members rounds would never produce an outcome" else explain t restarts
     let si := si && decide (qm = 0)
+    -- liveness also needs every member to keep feeding conditional upkeeps into its pipeline: the sampling flow is the
+    -- only way in for them; the harness counts members that were up for the whole run (> 13 s, sampling cadence 3 s),
+    -- had conditional upkeeps registered and never asked their pipeline about one
+    let starved ← asNat (fieldD impl "samplingStarved" (.num 0))
+    let ex := if starved > 0 && qm == 0 then s!"sampling-stopped: {starved} honest member(s) that stayed up with conditional upkeeps registered never sent one to the check pipeline: no conditional upkeep can ever be proposed, agreed or reported" else ex
+    let si := si && decide (starved = 0)
     let fail := if !pollOk && (si || ex.startsWith "two-reports-one-work/") then
         s!"polling-stopped: an open honest member went {gap} ms without asking its transmit event provider (cadence 1000 ms): transmit events are no longer consumed, performed work stays in flight"
       else if si then "" else ex
